@@ -686,6 +686,10 @@ def generate_coords():
         translate_do("verde/coordinates.py", "line_coordinates", "lineCoordinates",
                      [("start", "start", "rat"), ("stop", "stop", "rat"), ("size", "size", "optint"), ("spacing", "spacing", "optrat"),
                       ("adjust", "adjust", "str"), ("pixel_register", "pixel", "bool")], "ratlist"),
+        translate_do("verde/coordinates.py", "grid_coordinates", "gridLines",
+                     [("region[0]", "w", "rat"), ("region[1]", "e", "rat"), ("region[2]", "s", "rat"), ("region[3]", "n", "rat"),
+                      ("shape", "shape", "opt:intpair"), ("spacing", "spacing", "opt:ratlist"), ("adjust", "adjust", "str"),
+                      ("pixel_register", "pixel", "bool")], "ratlistpair", stop_at="coordinates"),
         translate_typed("verde/coordinates.py", "shape_to_spacing", "shapeToSpacing",
                         [("region[0]", "w", "rat"), ("region[1]", "e", "rat"), ("region[2]", "s", "rat"), ("region[3]", "n", "rat"),
                          ("shape[0]", "nNorth", "int"), ("shape[1]", "nEast", "int"), ("pixel_register", "pixel", "bool")],
@@ -918,21 +922,84 @@ def translate_v2w():
 
 
 # ============================================================================= statement-by-statement (do-notation) translation
+LEAN_TY = {"rat": "Rat", "int": "Int", "bool": "Bool", "str": "String", "optint": "Option Int", "optrat": "Option Rat",
+           "ratlist": "List Rat", "optratlist": "List (Option Rat)", "intpair": "Int × Int", "optintpair": "Option Int × Option Int",
+           "opt:intpair": "Option (Int × Int)", "opt:ratlist": "Option (List Rat)", "ratlistpair": "List Rat × List Rat"}
+
+
+def _inner(ty):
+    """Type of the value inside an optional."""
+    return {"optint": "int", "optrat": "rat"}.get(ty, ty[4:] if ty.startswith("opt:") else None)
+
+
+def _join(a, b):
+    if a == b:
+        return a
+    table = {frozenset(["int", "optint"]): "optint", frozenset(["rat", "optrat"]): "optrat",
+             frozenset(["intpair", "nonepair"]): "optintpair", frozenset(["optintpair", "nonepair"]): "optintpair",
+             frozenset(["intpair", "optintpair"]): "optintpair",
+             frozenset(["ratlist", "nonepair"]): "optratlist", frozenset(["optratlist", "nonepair"]): "optratlist",
+             frozenset(["ratlist", "optratlist"]): "optratlist"}
+    r = table.get(frozenset([a, b]))
+    if r is None and _inner(a) == b:
+        r = a
+    if r is None and _inner(b) == a:
+        r = b
+    if r is None:
+        raise Untranslatable(f"branches disagree on a type: {a} vs {b}")
+    return r
+
+
+def _coerce(tx, ty, want):
+    if ty == want:
+        return tx
+    if _inner(want) == ty:
+        return f"(some {tx})"
+    if (ty, want) == ("nonepair", "optintpair"):
+        return "((none : Option Int), (none : Option Int))"
+    if (ty, want) == ("nonepair", "optratlist"):
+        return "[(none : Option Rat), none]"
+    if (ty, want) == ("intpair", "optintpair"):
+        return f"(some {tx}.1, some {tx}.2)"
+    if (ty, want) == ("ratlist", "optratlist"):
+        return f"({tx}.map some)"
+    raise Untranslatable(f"cannot coerce {ty} to {want}")
+
+
 class DoT:
     """Python statements -> one Lean `do` block in `Except Err` (sequencing, early `raise`, calls to other translated functions,
-    optional arguments).  Values are (lean text, type) with types rat | int | bool | str | optint | optrat | ratlist.  Python
-    variables are Lean `let` bindings (rebinding = shadowing); an `if/elif/else` that assigns variables becomes
-    `let (v1, ..) <- if c then do ..; pure (v1, ..) else ..`; `x is not None` on an optional value opens a `match`."""
+    optional arguments).  Values are (lean text, type); Python variables are Lean `let` bindings (rebinding = shadowing); an
+    `if/elif/else` that assigns variables becomes `let (v1, ..) <- (do if c then .. pure (v1, ..) else ..)`; a test
+    `x is [not] None` on an optional value opens a `match`, inside which `x` has the inner type; `(None, None)` takes the type its
+    context gives it; a sequence of two numbers and a tuple of two numbers are the same kind of value (a list)."""
 
-    KNOWN_CALLS = {"spacing_to_size": ("Gen.spacingToSize", ["rat", "rat", "rat", "str"], ["int", "rat"])}
+    KNOWN_CALLS = {
+        "spacing_to_size": ("Gen.spacingToSize", ["start", "stop", "spacing", "adjust"], ["rat", "rat", "rat", "str"], ["int", "rat"]),
+        "line_coordinates": ("Gen.lineCoordinates", ["start", "stop", "size", "spacing", "adjust", "pixel_register"],
+                             ["rat", "rat", "optint", "optrat", "str", "bool"], ["ratlist"]),
+    }
+    KNOWN_CHECKS = {"check_region": ("Gen.checkRegion4", 4)}      # validation calls on a fixed-length sequence argument
 
-    def __init__(self, env):
+    def __init__(self, env, counter=None):
         self.env = dict(env)
-        self.tmp = 0
+        self.counter = counter if counter is not None else [0]
+        self.ret = None
 
     def fresh(self):
-        self.tmp += 1
-        return f"t{self.tmp}"
+        self.counter[0] += 1
+        return f"t{self.counter[0]}"
+
+    def sub(self, env=None):
+        d = DoT(self.env if env is None else env, self.counter)
+        return d
+
+    def num(self, pre, tx, ty):
+        """A value used as a number: optionals are unwrapped (`None` used as a number is a TypeError)."""
+        if ty in ("optint", "optrat"):
+            t = self.fresh()
+            pre.append(f"let {t} ← optGet {tx}")
+            return t, _inner(ty)
+        return tx, ty
 
     # ---- expressions: returns (pre-lines, lean text, type)
     def ex(self, n):
@@ -946,6 +1013,21 @@ class DoT:
             if isinstance(n.value, int):
                 return [], str(n.value), "num"
             _fail(n, "literal")
+        if isinstance(n, ast.Tuple) and len(n.elts) == 2:
+            if all(isinstance(e, ast.Constant) and e.value is None for e in n.elts):
+                return [], "<nonepair>", "nonepair"
+            pre, parts, tys = [], [], []
+            for e in n.elts:
+                p_, t_, ty_ = self.ex(e)
+                pre += p_
+                parts.append(t_)
+                tys.append(ty_)
+            if all(t in ("rat", "num") for t in tys):
+                return pre, "[" + ", ".join(parts) + "]", "ratlist"
+            _fail(n, "tuple")
+        if isinstance(n, ast.List) and len(n.elts) == 2 and all(isinstance(e, ast.Name) for e in n.elts) \
+                and all(self.env.get(e.id, ("", ""))[1] == "ratlist" for e in n.elts):
+            return [], "(" + ", ".join(self.env[e.id][0] for e in n.elts) + ")", "ratlistpair"
         if isinstance(n, ast.BinOp):
             p1, a, ta = self.ex(n.left)
             p2, b, tb = self.ex(n.right)
@@ -953,11 +1035,8 @@ class DoT:
             op = {ast.Add: "+", ast.Sub: "-", ast.Mult: "*", ast.Div: "/"}.get(type(n.op))
             if op is None:
                 _fail(n, "operator")
-            # optional integer used as a number: Python would raise TypeError on None
-            if ta == "optint":
-                t = self.fresh(); pre.append(f"let {t} ← optGet {a}"); a, ta = t, "int"
-            if tb == "optint":
-                t = self.fresh(); pre.append(f"let {t} ← optGet {b}"); b, tb = t, "int"
+            a, ta = self.num(pre, a, ta)
+            b, tb = self.num(pre, b, tb)
             if ta == "ratlist" and tb in ("rat", "num", "int") and op in ("+", "-"):
                 sb = b if tb != "int" else f"(({b} : Int) : Rat)"
                 return pre, f"({a}.map (fun v => v {op} {sb}))", "ratlist"
@@ -968,33 +1047,68 @@ class DoT:
             ty = "int" if "int" in (ta, tb) else "num"
             return pre, f"({a} {op} {b})", ty
         if isinstance(n, ast.Subscript):
+            if isinstance(n.value, ast.Name) and isinstance(n.slice, ast.Constant) and f"{n.value.id}[{n.slice.value}]" in self.env:
+                t, ty = self.env[f"{n.value.id}[{n.slice.value}]"]
+                return [], t, ty
             pv, v, tv = self.ex(n.value)
+            idx = n.slice.value if isinstance(n.slice, ast.Constant) and isinstance(n.slice.value, int) else None
             if tv == "ratlist":
                 if isinstance(n.slice, ast.Slice) and n.slice.lower is None and n.slice.step is None and isinstance(n.slice.upper, ast.UnaryOp) \
                         and isinstance(n.slice.upper.op, ast.USub) and getattr(n.slice.upper.operand, "value", None) == 1:
                     return pv, f"{v}.dropLast", "ratlist"
-                if isinstance(n.slice, ast.Constant) and isinstance(n.slice.value, int) and n.slice.value >= 0:
+                if idx is not None and idx >= 0:
                     t = self.fresh()
-                    return pv + [f"let {t} ← idxE {v} {n.slice.value}"], t, "rat"
+                    return pv + [f"let {t} ← idxE {v} {idx}"], t, "rat"
+            if tv == "optratlist" and idx is not None and idx >= 0:
+                t = self.fresh()
+                return pv + [f"let {t} ← idxO {v} {idx}"], t, "optrat"
+            if tv in ("intpair", "optintpair") and idx in (0, 1):
+                return pv, f"{v}.{idx + 1}", "int" if tv == "intpair" else "optint"
             _fail(n, "subscript")
         if isinstance(n, ast.Call):
             f = n.func
-            if isinstance(f, ast.Attribute) and isinstance(f.value, ast.Name) and f.value.id == "np" and f.attr == "linspace" \
-                    and len(n.args) == 3 and not n.keywords:
-                pre, args = [], []
-                for a_ in n.args[:2]:
-                    p, t, ty = self.ex(a_)
+            if isinstance(f, ast.Attribute) and isinstance(f.value, ast.Name) and f.value.id == "np":
+                if f.attr == "atleast_1d" and len(n.args) == 1 and not n.keywords:
+                    p, t, ty = self.ex(n.args[0])
+                    if ty == "opt:ratlist":
+                        t2 = self.fresh()
+                        return p + [f"let {t2} ← optGet {t}"], t2, "ratlist"
+                    if ty == "ratlist":
+                        return p, t, ty
+                if f.attr == "linspace" and len(n.args) == 3 and not n.keywords:
+                    pre, args = [], []
+                    for a_ in n.args[:2]:
+                        p, t, ty = self.ex(a_)
+                        pre += p
+                        args.append(t if ty != "int" else f"(({t} : Int) : Rat)")
+                    p, t, ty = self.ex(n.args[2])
                     pre += p
-                    args.append(t if ty != "int" else f"(({t} : Int) : Rat)")
-                p, t, ty = self.ex(n.args[2])
-                pre += p
-                if ty == "optint":
-                    t2 = self.fresh(); pre.append(f"let {t2} ← optGet {t}"); t, ty = t2, "int"
-                if ty not in ("int", "num"):
-                    _fail(n, "linspace count is not an integer")
-                r = self.fresh()
-                pre.append(f"let {r} ← linspaceE {args[0]} {args[1]} {t}")
-                return pre, r, "ratlist"
+                    t, ty = self.num(pre, t, ty)
+                    if ty not in ("int", "num"):
+                        _fail(n, "linspace count is not an integer")
+                    r = self.fresh()
+                    pre.append(f"let {r} ← linspaceE {args[0]} {args[1]} {t}")
+                    return pre, r, "ratlist"
+            if isinstance(f, ast.Name) and f.id in self.KNOWN_CALLS:
+                lean, names, argt, rett = self.KNOWN_CALLS[f.id]
+                given = dict(zip(names, n.args))
+                for k in n.keywords:
+                    given[k.arg] = k.value
+                if set(given) != set(names):
+                    _fail(n, "call does not bind every parameter of " + f.id)
+                pre, args = [], []
+                for nm, want in zip(names, argt):
+                    p, tx, ty = self.ex(given[nm])
+                    pre += p
+                    if ty == "num":
+                        ty = want if want in ("rat", "int") else ty
+                    if ty != want:
+                        tx = _coerce(tx, ty, want)
+                    args.append(tx if " " not in tx or tx.startswith("(") else f"({tx})")
+                if len(rett) == 1:
+                    r = self.fresh()
+                    return pre + [f"let {r} ← {lean} {' '.join(args)}"], r, rett[0]
+                return pre, f"{lean} {' '.join(args)}", "call:" + ",".join(rett)
         _fail(n, "unsupported expression")
 
     def cond(self, n):
@@ -1009,16 +1123,22 @@ class DoT:
         if isinstance(n, ast.Compare) and len(n.ops) == 1 and isinstance(n.ops[0], (ast.Is, ast.IsNot)) \
                 and isinstance(n.comparators[0], ast.Constant) and n.comparators[0].value is None:
             p, t, ty = self.ex(n.left)
-            if not ty.startswith("opt"):
+            if _inner(ty) is None:
                 _fail(n, "`is None` on a value that is never None here")
             return p, f"{t}.{'isNone' if isinstance(n.ops[0], ast.Is) else 'isSome'} = true"
+        if isinstance(n, ast.Compare) and len(n.ops) == 1 and isinstance(n.left, ast.Call) and getattr(n.left.func, "id", None) == "len" \
+                and isinstance(n.comparators[0], ast.Constant) and isinstance(n.comparators[0].value, int):
+            p, t, ty = self.ex(n.left.args[0])
+            sym = {ast.Eq: "=", ast.Gt: ">", ast.Lt: "<", ast.GtE: "≥", ast.LtE: "≤", ast.NotEq: "≠"}.get(type(n.ops[0]))
+            if ty in ("ratlist", "optratlist") and sym:
+                return p, f"{t}.length {sym} {n.comparators[0].value}"
         if isinstance(n, ast.Name):
             p, t, ty = self.ex(n)
             if ty == "bool":
                 return p, f"{t} = true"
         _fail(n, "unsupported condition")
 
-    # ---- statements: returns list of lines (no indentation)
+    # ---- statements
     def assigned(self, body):
         out = []
         for st in body:
@@ -1038,35 +1158,42 @@ class DoT:
         for st in body:
             if isinstance(st, ast.Expr) and isinstance(st.value, ast.Constant):
                 continue
-            if isinstance(st, ast.If) and len(st.body) == 1 and isinstance(st.body[0], ast.Raise) and not st.orelse:
-                p, c = self.cond(st.test)
-                exc = st.body[0].exc
+            if isinstance(st, ast.Raise):
+                exc = st.exc
                 name = exc.func.id if isinstance(exc, ast.Call) and isinstance(exc.func, ast.Name) else None
                 if name != "ValueError":
                     _fail(st, "unsupported exception type")
-                lines += p + [f"if {c} then throw Err.valueError"]
+                lines.append("throw Err.valueError")
+                continue
+            if isinstance(st, ast.Expr) and isinstance(st.value, ast.Call) and isinstance(st.value.func, ast.Name) \
+                    and st.value.func.id in self.KNOWN_CHECKS and len(st.value.args) == 1 and isinstance(st.value.args[0], ast.Name):
+                lean, k = self.KNOWN_CHECKS[st.value.func.id]
+                base = st.value.args[0].id
+                lines.append(f"let _ ← {lean} " + " ".join(self.env[f"{base}[{i}]"][0] for i in range(k)))
+                continue
+            if isinstance(st, ast.If) and len(st.body) == 1 and isinstance(st.body[0], ast.Raise) and not st.orelse:
+                p, c = self.cond(st.test)
+                sub = self.sub()
+                lines += p + [f"if {c} then"] + ["  " + ln for ln in sub.block(st.body)]
                 continue
             if isinstance(st, ast.If):
                 lines += self.branching(st)
                 continue
             if isinstance(st, ast.Assign) and len(st.targets) == 1:
                 t, v = st.targets[0], st.value
-                if isinstance(t, ast.Tuple) and isinstance(v, ast.Call) and isinstance(v.func, ast.Name) and v.func.id in self.KNOWN_CALLS:
-                    lean, argt, rett = self.KNOWN_CALLS[v.func.id]
-                    pre, args = [], []
-                    for a_, want in zip(v.args, argt):
-                        p, tx, ty = self.ex(a_)
-                        pre += p
-                        if ty != want and not (ty == "num"):
-                            _fail(st, f"argument type {ty} for {want}")
-                        args.append(tx)
+                p, tx, ty = self.ex(v)
+                if isinstance(t, ast.Tuple) and ty.startswith("call:"):
+                    rett = ty[5:].split(",")
                     names = [e.id for e in t.elts]
-                    lines += pre + [f"let ({', '.join(names)}) ← {lean} {' '.join(args)}"]
-                    for nm, ty in zip(names, rett):
-                        self.env[nm] = (nm, ty)
+                    lines += p + [f"let ({', '.join(names)}) ← {tx}"]
+                    for nm, rt in zip(names, rett):
+                        self.env[nm] = (nm, rt)
                     continue
                 if isinstance(t, ast.Name):
-                    p, tx, ty = self.ex(v)
+                    if ty == "nonepair":
+                        self.env[t.id] = ("<nonepair>", "nonepair")
+                        lines += p
+                        continue
                     lines += p + [f"let {t.id} := {tx}"]
                     self.env[t.id] = (t.id, "int" if ty == "num" else ty)
                     continue
@@ -1079,113 +1206,113 @@ class DoT:
         return lines
 
     def branching(self, st):
-        """if / elif / else whose branches (re)assign variables."""
-        vs = [v for v in self.assigned([st]) if v in self.env]
-        if len(vs) != len(self.assigned([st])):
+        """if / elif / else whose branches (re)assign variables (possibly raising in some)."""
+        vs = self.assigned([st])
+        if any(v not in self.env for v in vs):
             _fail(st, "a branch introduces a new name")
-        before = {v: self.env[v][1] for v in vs}
 
-        def run_branch(body, env):
-            sub = DoT(env)
-            sub.tmp = self.tmp + 100 * (1 + len(body))
-            ls = sub.block(body)
-            return ls, sub
+        def opened(test):
+            if isinstance(test, ast.Compare) and len(test.ops) == 1 and isinstance(test.ops[0], (ast.Is, ast.IsNot)) \
+                    and isinstance(test.left, ast.Name) and isinstance(test.comparators[0], ast.Constant) and test.comparators[0].value is None \
+                    and _inner(self.env[test.left.id][1]) is not None:
+                return test.left.id, isinstance(test.ops[0], ast.IsNot)
+            return None
 
-        def join(ty_a, ty_b):
-            if ty_a == ty_b:
-                return ty_a
-            if {ty_a, ty_b} == {"int", "optint"}:
-                return "optint"
-            _fail(st, f"branches disagree on a type: {ty_a} vs {ty_b}")
+        def build(node, env):
+            """-> tree: ('leaf', lines, sub) | ('if', pre, cond, tree_then, tree_else) | ('match', var, tree_some, tree_none)"""
+            if isinstance(node, list):
+                if len(node) == 1 and isinstance(node[0], ast.If) and not (len(node[0].body) == 1 and isinstance(node[0].body[0], ast.Raise)
+                                                                                 and not node[0].orelse):
+                    return build(node[0], env)
+                sub = self.sub(env)
+                return ("leaf", sub.block(node), sub)
+            op = None
+            saved = self.env
+            self.env = env
+            try:
+                op = opened(node.test)
+                if op is None:
+                    pre, c = self.cond(node.test)
+            finally:
+                self.env = saved
+            if op is not None:
+                var, some_is_then = op
+                env_some = dict(env)
+                env_some[var] = (var, _inner(env[var][1]))
+                t_some = build(node.body if some_is_then else node.orelse, env_some)
+                t_none = build(node.orelse if some_is_then else node.body, dict(env))
+                return ("match", var, t_some, t_none)
+            return ("if", pre, c, build(node.body, dict(env)), build(node.orelse, dict(env)))
 
-        # collect the branch chain
-        chain, node = [], st
-        while True:
-            chain.append((node.test, node.body))
-            if len(node.orelse) == 1 and isinstance(node.orelse[0], ast.If):
-                node = node.orelse[0]
-                continue
-            tail = node.orelse
-            break
-        results = []
-        for test, body in chain:
-            opened = None
-            if isinstance(test, ast.Compare) and len(test.ops) == 1 and isinstance(test.ops[0], ast.IsNot) and isinstance(test.left, ast.Name) \
-                    and getattr(test.comparators[0], "value", 0) is None and self.env[test.left.id][1].startswith("opt"):
-                opened = test.left.id
-                env = dict(self.env)
-                env[opened] = (opened, self.env[opened][1][3:])
-                ls, sub = run_branch(body, env)
-                results.append(("match", opened, ls, sub))
+        tree = build(st, dict(self.env))
+
+        def leaves(t, inside=None):
+            if t[0] == "leaf":
+                yield t, inside
+            elif t[0] == "if":
+                yield from leaves(t[3], inside)
+                yield from leaves(t[4], inside)
             else:
-                p, c = self.cond(test)
-                ls, sub = run_branch(body, dict(self.env))
-                results.append(("if", (p, c), ls, sub))
-        tail_ls, tail_sub = run_branch(tail, dict(self.env)) if tail else ([], DoT(dict(self.env)))
-        # joined types
+                yield from leaves(t[2], t[1])
+                yield from leaves(t[3], inside)
+
+        def leaf_val(leaf, inside, v):
+            return leaf[2].env[v]
+
         out_ty = {}
         for v in vs:
-            ty = tail_sub.env[v][1]
-            for r in results:
-                ty = join(ty, r[3].env[v][1] if not (r[0] == "match" and r[1] == v and v not in self.assigned([ast.If(test=ast.Constant(True), body=chain[results.index(r)][1], orelse=[])]))
-                          else before[v])
-            out_ty[v] = ty
+            ty = None
+            for leaf, inside in leaves(tree):
+                if leaf[1] and leaf[1][-1].startswith("throw "):
+                    continue                                # a raising branch does not constrain the type
+                t_ = leaf_val(leaf, inside, v)[1]
+                ty = t_ if ty is None else _join(ty, t_)
+            out_ty[v] = ty if ty is not None else self.env[v][1]
+        if any(t == "nonepair" for t in out_ty.values()):
+            _fail(st, "(None, None) never meets a typed value")
 
-        def pack(sub, opened=None):
-            parts = []
-            for v in vs:
-                tx, ty = sub.env[v]
-                if opened == v and v not in sub_assigned.get(id(sub), []):
-                    tx, ty = f"(some {v})", before[v]          # the matched value itself, re-wrapped
-                if ty != out_ty[v]:
-                    tx = f"(some {tx})"
-                parts.append(tx)
-            return "pure (" + ", ".join(parts) + ")" if len(parts) > 1 else "pure " + parts[0]
+        def pack(leaf, inside):
+            if leaf[1] and leaf[1][-1].startswith("throw "):
+                return []
+            parts = [_coerce(*leaf_val(leaf, inside, v), out_ty[v]) for v in vs]
+            return ["pure (" + ", ".join(parts) + ")" if len(parts) > 1 else "pure " + parts[0]]
 
-        sub_assigned = {}
-        for (test, body), r in zip(chain, results):
-            sub_assigned[id(r[3])] = self.assigned(body)
-        sub_assigned[id(tail_sub)] = self.assigned(tail)
-
-        def render(i, ind):
+        def render(t, ind, inside=None):
             pad = "  " * ind
-            if i == len(results):
-                return [pad + ln for ln in tail_ls] + [pad + pack(tail_sub)]
-            kind, info, ls, sub = results[i]
-            out = []
-            if kind == "match":
-                out.append(f"{pad}match {info} with")
-                out.append(f"{pad}| some {info} => do")
-                out += [pad + "    " + ln for ln in ls] + [pad + "    " + pack(sub, opened=info)]
-                out.append(f"{pad}| none => do")
-                out += render(i + 1, ind + 2)
-            else:
-                p, c = info
-                out += [pad + ln for ln in p]
-                out.append(f"{pad}if {c} then do")
-                out += [pad + "    " + ln for ln in ls] + [pad + "    " + pack(sub)]
-                out.append(f"{pad}else do")
-                out += render(i + 1, ind + 2)
-            return out
+            if t[0] == "leaf":
+                return [pad + ln for ln in t[1] + pack(t, inside)]
+            if t[0] == "if":
+                return ([pad + ln for ln in t[1]] + [f"{pad}if {t[2]} then do"] + render(t[3], ind + 2, inside) + [f"{pad}else do"]
+                        + render(t[4], ind + 2, inside))
+            return ([f"{pad}match {t[1]} with", f"{pad}| some {t[1]} => do"] + render(t[2], ind + 2, t[1]) + [f"{pad}| none => do"]
+                    + render(t[3], ind + 2, inside))
         lhs = "(" + ", ".join(vs) + ")" if len(vs) > 1 else vs[0]
-        body = render(0, 1)
+        body = render(tree, 1)
         for v in vs:
             self.env[v] = (v, out_ty[v])
-        self.tmp += 1000
         return [f"let {lhs} ← (do"] + body + ["  )"]
 
 
-def translate_do(path, name, lean_name, params, rettype):
+def translate_do(path, name, lean_name, params, rettype, stop_at=None):
+    """stop_at: translate the statements up to and including the first assignment to this name and return its value."""
     src = open(os.path.join(REPO, path)).read()
     fn = find_func(ast.parse(src), name)
     d = DoT({py: (lean, ty) for py, lean, ty in params})
-    d.ret = None
-    lines = d.block(fn.body)
-    lean_ty = {"rat": "Rat", "int": "Int", "bool": "Bool", "str": "String", "optint": "Option Int", "optrat": "Option Rat", "ratlist": "List Rat"}
+    body = fn.body
+    if stop_at is not None:
+        cut = [i for i, st in enumerate(body) if isinstance(st, ast.Assign) and any(isinstance(t, ast.Name) and t.id == stop_at for t in st.targets)]
+        if not cut:
+            raise Untranslatable(f"{name}: no assignment to {stop_at}")
+        body = body[:cut[0] + 1] + [ast.Return(value=ast.Name(id=stop_at, ctx=ast.Load()))]
+    lines = d.block(body)
     if d.ret != rettype:
         raise Untranslatable(f"{name}: returns {d.ret}, expected {rettype}")
-    args = " ".join(f"({lean} : {lean_ty[ty]})" for _, lean, ty in params)
+    seen, args = set(), []
+    for _, lean, ty in params:
+        if lean not in seen:
+            seen.add(lean)
+            args.append(f"({lean} : {LEAN_TY[ty]})")
     seg = ast.get_source_segment(src, fn)
     sha = hashlib.sha256(seg.encode()).hexdigest()[:16]
     return (f"/-- translated statement by statement from {path}:{fn.lineno}-{fn.end_lineno} ({name}), sha256 {sha} -/\n"
-            f"def {lean_name} {args} : Except Err ({lean_ty[rettype]}) := do\n" + "\n".join("  " + ln for ln in lines) + "\n")
+            f"def {lean_name} {' '.join(args)} : Except Err ({LEAN_TY[rettype]}) := do\n" + "\n".join("  " + ln for ln in lines) + "\n")
